@@ -196,6 +196,36 @@ def run(rep, tier, seed):
                 if not numpy.array_equal(back.data[keep], u.data[keep]):
                     rep.violation("shift(-s) o shift(s) D=%d s=%d" % (D, s), {})
             rep.replayed(1)
+    # block containers and coefficient extraction: numpy.block / plain slicing on every coefficient slice as reference
+    for it in range(6 if q else 30):
+        D, P = int(rng.randint(1, 4)), int(rng.randint(1, 3))
+        n1, n2, m1, m2 = [int(v) for v in rng.randint(1, 4, size=4)]
+        blocks = [[UTPM(rng.randint(-5, 6, size=(D, P, n1, m1)).astype(float)), UTPM(rng.randint(-5, 6, size=(D, P, n1, m2)).astype(float))],
+                  [UTPM(rng.randint(-5, 6, size=(D, P, n2, m1)).astype(float)), UTPM(rng.randint(-5, 6, size=(D, P, n2, m2)).astype(float))]]
+        obj = numpy.empty((2, 2), dtype=object)
+        for r_ in range(2):
+            for c_ in range(2):
+                obj[r_, c_] = blocks[r_][c_]
+        for variant, cont in (("nested list", blocks), ("tuple of tuples", tuple(tuple(b) for b in blocks)), ("object array", obj)):
+            rep.case(("combine_blocks", it, variant), nontrivial=True)
+            try:
+                X = UTPM.combine_blocks(cont)
+                exp = numpy.array([[numpy.block([[b.data[d, p] for b in row] for row in blocks]) for p in range(P)] for d in range(D)])
+                if X.data.shape != exp.shape or not numpy.array_equal(X.data, exp):
+                    rep.violation("combine_blocks (%s)" % variant, {"D": D, "P": P, "got_shape": list(X.data.shape), "expected_shape": list(exp.shape)})
+                else:
+                    # and back: the blocks are the slices of the combined polynomial
+                    back = X[:n1, m1:]
+                    if not numpy.array_equal(back.data, blocks[0][1].data):
+                        rep.violation("combine_blocks then slicing", {"D": D, "P": P})
+            except Exception as ex:
+                rep.violation("combine_blocks (%s) raises %s" % (variant, type(ex).__name__), {"what": repr(ex)[-200:]})
+        x = UTPM(rng.randint(-5, 6, size=(3, 2, 2, 3)).astype(float))
+        sl = (slice(1, 3), slice(0, 1)); shp = (2, 1, 6)
+        rep.case(("coeff_op", it), nontrivial=True)
+        y = x.coeff_op(sl, shp)
+        if not numpy.array_equal(y.data, x.data[sl].reshape(shp)):
+            rep.violation("coeff_op", {})
     # binding self-test
     r0 = next(r for r in res.records if r["kind"] == "piv" and len(r["piv"]) == 3 and r["sign"] == -1)
     if utils.piv2det(numpy.array(r0["piv"])) == -r0["sign"]:
